@@ -97,8 +97,8 @@ static inline void mtSetupWorld(TaskCtx &t, const Plan &p)
     uint64_t bs = (uint64_t)p.get("bankseed") + (uint64_t)t.id * 7;
     t.world.bankImages.push_back(stdBankImage(bs, 1, 1));
     t.world.bankImages.push_back(stdBankImage(bs + 1, 1, 1, true));
-    t.world.songImages.push_back(stockSong((uint64_t)p.get("songseed") + (uint64_t)t.id, 0));
-    t.world.songImages.push_back(stockSong((uint64_t)p.get("songseed") + 100 + (uint64_t)t.id, 1));
+    t.world.songImages.push_back(stockSong((uint64_t)p.get("songseed") + (uint64_t)t.id, 0, true));
+    t.world.songImages.push_back(stockSong((uint64_t)p.get("songseed") + 100 + (uint64_t)t.id, 1, true));
 }
 
 // ---- executors ------------------------------------------------------------------------------------------
@@ -176,9 +176,21 @@ static inline void mtGenerate(Rng &r, Plan &p, bool thorough, bool racePhase)
         for(int i = 0; i < len; ++i)
         {
             Op o; o.kind = (int)r.pick<int>({ A_NOTE_ON, A_NOTE_ON, A_NOTE_ON, A_NOTE_OFF, A_CONTROLLER, A_GENERATE, A_GENERATE, A_GENERATE, A_PLAY, A_TICK_EVENTS, A_OPEN_DATA, A_RESET, A_SWITCH_EMULATOR, A_CLOSE, A_INIT, A_OPEN_BANK_DATA, A_GETTERS, A_SET_CHIP_TYPE, A_SET_RUN_AT_PCM_RATE, A_PITCH_BEND, (int)MT_NULLDEV });
+            // one op in five is a setting or transport call that touches an existing chip/sequencer without re-creating it
+            if(r.chance(0.2)) o.kind = (int)r.pick<int>({ A_SET_LFO_ENABLED, A_SET_LFO_FREQ, A_SET_LFO_ENABLED, A_SET_LFO_FREQ, A_SET_VOLUME_MODEL, A_SET_SOFT_PAN, A_SET_SCALE_MOD, A_SET_FULL_BRIGHT, A_SET_AUTO_ARP,
+                                                      A_SET_CHAN_ALLOC, A_PATCH, A_PANIC, A_SEEK, A_REWIND, A_SET_TEMPO, A_SYSEX, A_BANK_MSB, A_BANK_LSB, A_SET_LOOP_ENABLED, A_SELECT_SONG, A_RT_RESET_STATE, A_CHAN_AFTERTOUCH });
             o.inst = (int)r.below(2);
             switch(o.kind)
             {
+            case A_SET_LFO_ENABLED: case A_SET_SOFT_PAN: case A_SET_SCALE_MOD: case A_SET_FULL_BRIGHT: case A_SET_AUTO_ARP: case A_SET_LOOP_ENABLED: o.a[0] = (int64_t)r.below(2); break;
+            case A_SET_LFO_FREQ: o.a[0] = (int64_t)r.range(-1, 7); break;
+            case A_SET_VOLUME_MODEL: o.a[0] = (int64_t)r.range(0, 5); break;
+            case A_SET_CHAN_ALLOC: o.a[0] = (int64_t)r.range(-1, 2); break;
+            case A_PATCH: case A_BANK_MSB: case A_BANK_LSB: case A_CHAN_AFTERTOUCH: o.a[0] = (int64_t)r.below(16); o.a[1] = (int64_t)r.below(128); break;
+            case A_SEEK: o.d = r.real(0.0, 3.0); break;
+            case A_SET_TEMPO: o.d = r.pick<double>({ 0.5, 1.0, 2.0 }); break;
+            case A_SYSEX: o.blob = genSysEx(r); break;
+            case A_SELECT_SONG: o.a[0] = (int64_t)r.below(2); break;
             case A_NOTE_ON: o.a[0] = (int64_t)r.below(16); o.a[1] = (int64_t)r.range(36, 90); o.a[2] = (int64_t)r.range(40, 127); break;
             case A_NOTE_OFF: o.a[0] = (int64_t)r.below(16); o.a[1] = (int64_t)r.range(36, 90); break;
             case A_CONTROLLER: o.a[0] = (int64_t)r.below(16); o.a[1] = r.pick<int>({ 7, 10, 11, 64, 1 }); o.a[2] = (int64_t)r.below(128); break;
